@@ -5,6 +5,7 @@ import (
 	"encoding/json"
 	"fmt"
 	"runtime"
+	"runtime/metrics"
 	"strings"
 )
 
@@ -269,4 +270,17 @@ func topGotsFrame() string {
 		}
 	}
 	return "?"
+}
+
+var allocSample = []metrics.Sample{{Name: "/gc/heap/allocs:bytes"}}
+
+// HeapAllocs returns the cumulative bytes allocated on the heap by this
+// process (cheap: no stop-the-world). Workers are effectively single
+// threaded, so a delta around a call is that call's allocation.
+func HeapAllocs() uint64 {
+	metrics.Read(allocSample)
+	if allocSample[0].Value.Kind() == metrics.KindUint64 {
+		return allocSample[0].Value.Uint64()
+	}
+	return 0
 }
